@@ -136,7 +136,7 @@ def gen_ops(rng, keys, nops, tag, weights=None):
         elif r < 0.965:
             ops.append(['ne', 'CUR' if rng.random() < 0.5 else pairs(rng.randint(0, 3))] + okind())
         elif r < 0.97:
-            ops.append(['eqself'])
+            ops.append(rng.choice([['eqself'], ['eqself'], ['update_self'], ['ior_self']]))
         else:
             ops.append(['copy'])
     return ops
